@@ -26,7 +26,8 @@ ASSUMPTIONS = [
 ]
 MINIMUM = {"distinct": 300, "neg_cases": 100, "chan_items": 50}
 
-N = {"quick": 12000, "thorough": 150000}
+N = {"quick": 9000, "thorough": 150000}
+SHARD_TIMEOUT = {"quick": 420, "thorough": 6000}
 NSH = {"quick": 16, "thorough": 32}
 
 
@@ -103,6 +104,69 @@ for item in channel:
 """
 
 
+def poison(x, depth=0):
+    """add junk to every mutable container of a loaded value"""
+    if depth > 60:
+        return
+    if isinstance(x, list):
+        for y in x:
+            poison(y, depth + 1)
+        x.append("poison")
+    elif isinstance(x, dict):
+        for y in list(x.values()):
+            poison(y, depth + 1)
+        x["poison"] = "poison"
+    elif isinstance(x, set):
+        x.add("poison")
+    elif isinstance(x, tuple):
+        for y in x:
+            poison(y, depth + 1)
+
+
+def stream_sequence(res, execnet, rng, triples):
+    import os
+    import tempfile
+
+    blob = b"".join(t[2] for t in triples)
+    prefix = rng.choice((b"", b"HEADER-OF-THE-APPLICATION\n"))
+    kind = rng.choice(("bytesio", "buffered_file", "raw_file", "pipe_raw"))
+    path = None
+    try:
+        if kind == "bytesio":
+            f = io.BytesIO(prefix + blob)
+        elif kind == "pipe_raw":
+            if len(prefix + blob) > 60000:
+                return
+            r, w_ = os.pipe()
+            os.write(w_, prefix + blob)
+            os.close(w_)
+            f = open(r, "rb", 0)
+        else:
+            fd, path = tempfile.mkstemp(prefix="verif-c01-")
+            os.write(fd, prefix + blob)
+            os.close(fd)
+            f = open(path, "rb", -1 if kind == "buffered_file" else 0)
+        with f:
+            if prefix and f.read(len(prefix)) != prefix:
+                res.inconclusive.append("stream_sequence: prefix read failed")
+                return
+            for k, (v, cv, b) in enumerate(triples):
+                try:
+                    got = execnet.load(f)
+                except BaseException as e:  # noqa
+                    res.violation(f"stream-sequence-load-raises:{kind}", f"value #{k} of {len(triples)} after a {len(prefix)}-byte header: {type(e).__name__}: {e}")
+                    return
+                if values.canon(got) != cv:
+                    res.violation(f"stream-sequence-value-wrong:{kind}", f"value #{k} of {len(triples)}: {first_diff(cv, values.canon(got))}")
+                    return
+            if f.read(1) != b"":
+                res.violation(f"stream-sequence-left-bytes:{kind}", "")
+        res.count("stream_sequences")
+    finally:
+        if path:
+            os.unlink(path)
+
+
 def run_shard(spec):
     import hashlib
 
@@ -168,6 +232,26 @@ def run_shard(spec):
         if cw != cv:
             res.violation(f"roundtrip-mismatch:{kind_of_diff(cv, cw)}", f"{first_diff(cv, cw)} value={short(v)}")
             continue
+        # a loaded value belongs to its receiver: whatever is done to its containers never shows up in values loaded later
+        if i % 5 == 0 and len(b) < 20000:
+            poison(w)
+            try:
+                w_again = execnet.loads(b)
+                res.count("reloads_after_mutating_the_first_result")
+                if values.canon(w_again) != cv:
+                    res.violation("loaded-value-shares-objects-with-an-earlier-load", f"{first_diff(cv, values.canon(w_again))} value={short(v)}")
+                    continue
+            except BaseException as e:  # noqa
+                res.violation(f"reload-raises:{type(e).__name__}", f"{e} for {short(v)}")
+                continue
+        # several values written to one stream one after the other are read back one by one (each load stops at its STOP)
+        if i % 40 == 1 and len(refb) < 20000 and not over:
+            extras = [x for x in (g.value(2), g.value(2)) if not digits_over_limit(x)]
+            try:
+                seq = [(v, cv, b)] + [(x, values.canon(x), codec.encode(x)) for x in extras]
+            except RecursionError:
+                seq = [(v, cv, b)]
+            stream_sequence(res, execnet, rng, seq)
         # path 2: dump to a write collector, load from a chunked buffered stream
         if i % 3 == 0:
             chunks = []
